@@ -3,6 +3,7 @@
 package v2
 
 import (
+	"crypto"
 	"crypto/x509"
 	"errors"
 	"fmt"
@@ -11,9 +12,12 @@ import (
 	"os"
 	"path/filepath"
 	"testing"
+	"time"
 
 	ssi "github.com/nuts-foundation/go-did"
 	"github.com/nuts-foundation/go-did/did"
+	"github.com/nuts-foundation/nuts-node/network/dag"
+	"github.com/nuts-foundation/nuts-node/vdr/resolver"
 	"github.com/nuts-foundation/nuts-node/network/transport"
 	"github.com/nuts-foundation/nuts-node/network/transport/grpc"
 )
@@ -26,6 +30,52 @@ type vC15Layout struct {
 	priv     []int          // private transaction indices
 	kind     map[int]string // idx -> kind of PAL
 	mism     string         // a payload id that matches no private transaction
+}
+
+// vKakResolver resolves the key agreement key of a DID (what PAL.Encrypt asks the VDR for)
+type vKakResolver struct{ u *vUniverse }
+
+func (r vKakResolver) ResolveKeyByID(string, *resolver.ResolveMetadata, resolver.RelationType) (crypto.PublicKey, error) {
+	return nil, resolver.ErrKeyNotFound
+}
+func (r vKakResolver) ResolveKey(id did.DID, _ *time.Time, rel resolver.RelationType) (string, crypto.PublicKey, error) {
+	if rel != resolver.KeyAgreement {
+		return "", nil, resolver.ErrKeyNotFound
+	}
+	kid, k := r.u.kak(id.String())
+	return kid, &k.PublicKey, nil
+}
+
+// encryptPAL runs the REAL dag.PAL.Encrypt and registers ciphertext i as decryptable by participant i's key to the whole list
+func (u *vUniverse) encryptPAL(dids []string) []int {
+	var pal dag.PAL
+	for _, d := range dids {
+		pal = append(pal, did.MustParseDID(d))
+	}
+	var epal dag.EncryptedPAL
+	vWithRand(byte(0x61+len(u.ciphers)%64), func() {
+		var err error
+		epal, err = pal.Encrypt(vKakResolver{u})
+		if err != nil {
+			panic(err)
+		}
+	})
+	var ids []int
+	for i, ct := range epal {
+		kid := ""
+		if i < len(dids) {
+			kid, _ = u.kak(dids[i])
+		}
+		c := &vCipher{id: len(u.ciphers), kid: kid, plain: dids, bytes: ct}
+		u.ciphers = append(u.ciphers, c)
+		pl := make([]interface{}, len(dids))
+		for k, d := range dids {
+			pl[k] = d
+		}
+		u.ops = append(u.ops, vJSON(map[string]interface{}{"op": "cipher", "id": c.id, "kid": kid, "plain": pl}))
+		ids = append(ids, c.id)
+	}
+	return ids
 }
 
 func buildC15Universe(u *vUniverse) *vC15Layout {
@@ -46,9 +96,10 @@ func buildC15Universe(u *vUniverse) *vC15Layout {
 		ly.kind[idx] = kind
 	}
 	ab := []string{A, B}
-	mk("honest-AB", 2, ab, []int{u.cipher(A, ab), u.cipher(B, ab)})
-	mk("honest-A", 3, []string{A}, []int{u.cipher(A, []string{A})})
-	mk("honest-BC", 4, []string{B, C}, []int{u.cipher(B, []string{B, C}), u.cipher(C, []string{B, C})})
+	// headers produced by the real PAL.Encrypt
+	mk("honest-AB", 2, ab, u.encryptPAL(ab))
+	mk("honest-A", 3, []string{A}, u.encryptPAL([]string{A}))
+	mk("honest-BC", 4, []string{B, C}, u.encryptPAL([]string{B, C}))
 	mk("nonmember-cipher", 5, ab, []int{u.cipher(A, ab), u.cipher(B, ab), u.cipher(C, ab)}) // author also encrypted the list to C
 	mk("garbage-plain", 6, nil, []int{u.cipher(A, []string{"!not a did"}), u.cipher(B, []string{"!not a did"})})
 	mk("nobody", 7, nil, []int{u.cipher("", ab)})
